@@ -107,7 +107,9 @@ def check_read_logged(c, repo, f):
             c.check(not extra, f, r.ast, 'returns data read (and logged) by the base class; not logged a second time here',
                     witness='additional _log at L%d' % extra[0].lineno if extra else None, tag='super-logged:' + norm(v)[:30])
             continue
-        if isinstance(v, ast.Name):
+        in_popen_eof = f.qual == 'popen_spawn:PopenSpawn.read_nonblocking' and ('self._read_reached_eof', True) in conditions(g, r) \
+            and not [n for n, k in logs if g.path(n, r, skip_labels=('exc',)) is not None]
+        if isinstance(v, ast.Name) and not in_popen_eof:
             mine = [n for n, k in logs if is_name(log_parts(k)[0], v.id)]
             ok, p = g.dominated_by(r, set(mine), skip_labels=())
             lmn, lmx = g.occurrences(lambda x: x in set(mine), goals={r}) if mine else (0, 0)
@@ -293,7 +295,7 @@ def check_log_types(c, repo):
             params[f.params[1]] = ['ctrlbyte']
         if f.name == 'send':
             params[f.params[1]] = ['userarg']
-        L = Labels(f, classify_log, param_labels=params, attr_labels={'self._buf': ['text']}).run()
+        L = Labels(f, classify_log, param_labels=params, attr_labels={'self._buf': ['text'], 'self.linesep': ['sendstr'], 'self.crlf': ['sendstr']}).run()          # linesep / crlf are kept in the object's own string type
         g = f.cfg
         for k in ks:
             n_sites += 1
@@ -312,6 +314,8 @@ def check_log_types(c, repo):
                 what = 'raw bytes (not decoded): in unicode mode the log receives bytes while the API delivers text' if 'raw' in labs else \
                     ('an exception object, not text: logfile.write(e) raises TypeError and kills the reader thread before the end-of-stream '
                      'sentinel is queued' if 'exc' in labs else 'a value of unknown type %s' % sorted(labs))
+                if not ({'raw', 'exc'} & labs) and 'other' in labs:
+                    raise AnalysisError('C11-D4: cannot tell what kind of value %s logs in %s (labels %s)' % (norm(k), f.qual, sorted(labs)))
                 c.bad(f, k, 'the logged value is ' + what, witness='labels %s' % sorted(labs), kind='flow', tag='type:' + norm(k)[:40])
     c.need(n_sites >= 10, 'expected >= 10 _log call sites, found %d' % n_sites)
 
